@@ -66,6 +66,12 @@ def run(ctx):
         for rsize in (0, 1, 7):
             for skip in (0, 3):
                 runs.append(fc.record(b"", kind, rsize, skip, rng, 5, "empty"))
+    # sources that die beyond the 20 MB buffer-trim threshold (every kind)
+    big = _mk_stream(rng, packets, [65536] * 322, 0)
+    cutpoints = [len(big) - 1, len(big) - 65536 - 3, len(big) - 30000]
+    for kind, rsize in (("bytes", 0), ("file", 1 << 20), ("sock", 1 << 16)):
+        cut = cutpoints[len(runs) % len(cutpoints)]
+        runs.append(fc.record(big[:cut], kind, rsize, 0, rng, 400, f"dies-beyond-20MB-{kind}"))
     fc.validate_traces(ctx, "C10", runs, "faults")
     hangs = sum(1 for r in runs if r[5]["outcome"] != "stop")
     ctx.extra["runs_not_terminating_or_raising"] = hangs
